@@ -213,6 +213,15 @@ def analyse():
     """-> (report, text of Arith.lean or None): nothing is written"""
     report = {"functions": {}, "partialFns": [], "unparsed": [], "copies_agree": True}
     defs = {}
+    # the crate-wide item skeleton (tools/src_skeleton.py): a new item anywhere in the crate (a `use … as left`, a trait that
+    # shadows a method, a `#[cfg]`-selected decoy, a new file, …) can change what the helpers below mean
+    try:
+        sys.path.insert(0, os.path.dirname(os.path.abspath(__file__)))
+        import src_skeleton
+        for pr in src_skeleton.check(REPO):
+            report["unparsed"].append({"fn": "*", "why": "skeleton: " + pr})
+    except Exception as ex:
+        report["unparsed"].append({"fn": "*", "why": "the skeleton check could not be run: %r" % (ex,)})
     for name in WANTED:
         copies = []
         refused = None
